@@ -107,6 +107,28 @@ def replay(obligation, extra):
                     if err:
                         return dict(found=True, input='application calls close(1001, b"going") at the %s event; server then sends %s%s%s%s' % (at, 'a Ping and then ' if ping else '', sc.hex(), ' and more frames' if trailing else '', ', one byte per read' if cuts else ''),
                                     expected='exactly one Close (1001, going), later sends refused, Closed, graceful Disconnected, socket closed', observed=err)
+    # the longest reason a control frame can carry (123 bytes of UTF-8), both directions
+    for reason in (b'r' * 123, ('\u20ac' * 41).encode('utf-8')):
+        tried += 1
+        st = {}
+
+        def react(ws, ev, k, run, reason=reason):
+            if ev.name == 'text' and not st.get('done'):
+                st['done'] = True
+                try:
+                    ws.close(1000, reason)
+                except Exception as e:      # noqa
+                    st['error'] = repr(e)
+        run = harness.drive(stream=ref.server_frame(1, b'm') + ref.server_frame(8, struct.pack('!H', 1000)), react=react, connect_kwargs=dict(ping_rate=0))
+        closes_w = [p for o, p in wire_ops(run) if o == 8]
+        if st.get('error') or closes_w != [struct.pack('!H', 1000) + reason]:
+            return dict(found=True, input='application calls close(1000, <123-byte reason %r...>)' % reason[:6], expected='one Close frame with that code and reason',
+                        observed=st.get('error') or 'Close frames written: %r' % [c[:8] for c in closes_w])
+        tried += 1
+        err = server_first(ref.server_frame(8, struct.pack('!H', 1001) + reason), False, False, b'')
+        if err:
+            return dict(found=True, input='server sends Close 1001 with a 123-byte reason %r... first' % reason[:6],
+                        expected='Closing, one Close echo with the same code, graceful Disconnected', observed=err)
     for sc in closes:
         for ac in (False, True):
             for sd in (False, True):
